@@ -184,9 +184,13 @@ def r3_guard(repo):
             graph_ok = False
             if ok:
                 a0 = tests[0].args[0]
-                defs = g.defs_reaching(a0.id, tests[0]) if isinstance(a0, ast.Name) else []
-                graph_ok = len(defs) == 1 and isinstance(defs[0][1], ast.Call) and \
-                    call_name(defs[0][1]) in ("copy", "dict") and is_within(g.stmt(defs[0][0]), outer)
+                if isinstance(a0, ast.Name):
+                    defs = g.defs_reaching(a0.id, tests[0])
+                    graph_ok = len(defs) == 1 and isinstance(defs[0][1], ast.Call) and \
+                        call_name(defs[0][1]) in ("copy", "dict") and is_within(g.stmt(defs[0][0]), outer)
+                else:
+                    # the copy is made in the argument position itself
+                    graph_ok = isinstance(a0, ast.Call) and call_name(a0) in ("copy", "dict") and len(a0.args) == 1
                 # combination is the outer loop's variable
                 tgt = outer.target
                 names = {n.id for n in ast.walk(tgt) if isinstance(n, ast.Name)}
@@ -426,7 +430,8 @@ def r7_feasibility_shape(repo):
         ok2 = len(dfs) == 1 and [src(a) for a in dfs[0].args] == [graph, src(v1.target)] and len(neg) == 1
         if ok2:
             gs = _g(neg[0], stop=v1)
-            ok2 = any(pol and " ".join(s_.split()) == "n.t != %s.decl.get_type()" % src(v1.target) for s_, pol in gs) and \
+            ok2 = any(not pol and " ".join(s_.split()) in ("n.t == %s.decl.get_type()" % src(v1.target),
+                                                          "%s.decl.get_type() == n.t" % src(v1.target)) for s_, pol in gs) and \
                 any(pol and "isinstance(n," in s_ and "TypeNode" in s_ for s_, pol in gs)
         obs.append(Ob("C03-R7", "is_combination_feasible:omitted-declaration-reaches-only-its-own-type", _w(f, v1), ok2,
                       "for every omitted declaration, any type node reachable from it (dfs over the reduced graph) with a "
